@@ -35,6 +35,9 @@ def judge(mode, s_bytes, parts, want, obs, out, extra):
                 out.violation("C16:components:render", "components do not reproduce the inputs", extra)
         return o["ok"]
     verdicts = {k: p[k]["ok"] for k in PATHS}
+    if mode == "token":
+        # the server's credential paths (Authorization: Bearer <s>, Cookie: sid=<s>); absent when <s> cannot be a header value
+        verdicts.update({k: p[k]["ok"] for k in ("auth_header", "auth_cookie") if p.get(k) is not None})
     for k, v in verdicts.items():
         if v != want:
             out.violation("C16:%s:%s:%s" % (mode, k, "accepted-invalid" if v else "rejected-valid"),
